@@ -20,7 +20,9 @@ use std::sync::Arc;
 use tokio::sync::mpsc;
 
 /// fixture variants: bit 0 = SRTP session installed (AES_CM_128_HMAC_SHA1_80), bit 1 = latching with a probation window,
-/// bit 2 = latching without probation, bit 3 = an expected SSRC is set
+/// bit 2 = latching without probation, bit 3 = an expected SSRC is set, bit 4 = a rewrite bridge to a second transport is installed
+/// (relay: SSRC / PT / DTMF rewrite, sequence and timestamp continuation, MID stamping, re-serialisation), bit 5 = the bridge strips extensions,
+/// bit 6 = the destination protects with SRTP
 pub struct Fix {
     rt: tokio::runtime::Runtime,
     conn: Arc<IceConn>,
@@ -30,6 +32,7 @@ pub struct Fix {
     pub tx: Option<SrtpSession>,
     _sock_tx: tokio::sync::watch::Sender<Option<rustrtc::transports::ice::IceSocketWrapper>>,
     pub variant: u8,
+    _dst: Option<(Arc<RtpTransport>, tokio::sync::watch::Sender<Option<rustrtc::transports::ice::IceSocketWrapper>>)>,
 }
 fn km(dir: u8) -> SrtpKeyingMaterial { SrtpKeyingMaterial::new((0..16).map(|k| k as u8 ^ (0x30 + dir)).collect(), (0..14).map(|k| k as u8 ^ (0x70 + dir)).collect()) }
 
@@ -61,7 +64,23 @@ impl Fix {
             tx = Some(SrtpSession::new(SrtpProfile::Aes128Sha1_80, km(1), km(2)).unwrap());
         }
         conn.set_rtp_receiver(tr.clone() as Arc<dyn PacketReceiver>);
-        Fix { rt, conn, tr, rtp_rx, rtcp_rx, tx, _sock_tx: sock_tx, variant }
+        let mut dst = None;
+        if variant & 16 != 0 {
+            use rustrtc::transports::rtp::{RtpRewriteBridgeOptions, RtpRewriteRule};
+            let (dtx, drx) = tokio::sync::watch::channel(None);
+            let dconn = IceConn::new(drx, "127.0.0.1:4100".parse().unwrap(), Some("c07-dst".into()));
+            let d = Arc::new(RtpTransport::new(dconn, variant & 64 != 0));
+            if variant & 64 != 0 { d.start_srtp(SrtpSession::new(SrtpProfile::Aes128Sha1_80, km(3), km(4)).unwrap()); }
+            let options = RtpRewriteBridgeOptions { strip_extensions: variant & 32 != 0, initial_sequence_number: Some(0xFFF8), initial_timestamp_offset: Some(0xFFFF_FF00), initial_output_timestamp: None };
+            let rules = vec![
+                RtpRewriteRule { match_payload_type: Some(96), fixed_out_ssrc: Some(0x7000), ssrc_offset: 0, out_payload_type: Some(100), sdes_mid_extension_id: Some(1), sdes_mid: Some("0".into()) },
+                RtpRewriteRule { match_payload_type: Some(97), fixed_out_ssrc: None, ssrc_offset: 0xFFFF_FFFF, out_payload_type: None, sdes_mid_extension_id: Some(14), sdes_mid: Some("a-rather-long-mid".into()) },
+                RtpRewriteRule { match_payload_type: None, fixed_out_ssrc: None, ssrc_offset: 7, out_payload_type: Some(8), sdes_mid_extension_id: None, sdes_mid: None },
+            ];
+            tr.bridge_rewrite_rules_to(d.clone(), options, rules);
+            dst = Some((d, dtx));
+        }
+        Fix { rt, conn, tr, rtp_rx, rtcp_rx, tx, _sock_tx: sock_tx, variant, _dst: dst }
     }
     fn drain(&mut self) -> usize {
         let mut n = 0;
@@ -82,7 +101,11 @@ pub fn run_rtprecv(run: &mut Run, fix: &mut Fix, from: u8, pkt: &[u8], nt: bool)
     let d = pkt.to_vec();
     let variant = fix.variant;
     let mut f = std::panic::AssertUnwindSafe(&mut *fix);
-    exec(run, "rtprecv", &format!("{variant} {from} {}", hex(pkt)), "IceConn::receive→RtpTransport::receive", nt, Some((64, 32768, pkt.len() as u64)), move || {
+    // with an SRTP-protected destination leg every new output SSRC adds a ≈ 7 KB protect context to a hash table that stores them inline: a
+    // rehash of a table of k contexts allocates ≈ 2k·7 KB in one call (amortised; the table is capped at 1024). The per-call bound of these
+    // variants allows for a table of ≈ 256 contexts; growth itself is judged by the retained-memory flood (`rtpflood 4`).
+    let b = if variant & 64 != 0 { 4 << 20 } else { 32768 };
+    exec(run, "rtprecv", &format!("{variant} {from} {}", hex(pkt)), "IceConn::receive→RtpTransport::receive", nt, Some((64, b, pkt.len() as u64)), move || {
         f.feed(&d, src(from));
         super::mark_alloc();
         let n = f.drain();
@@ -117,7 +140,9 @@ fn cpu_time() -> f64 {
 
 /// kind 0: plain RTP, a new SSRC per packet on a uniquely routed payload type (each is bound: `bind_ssrc_route`);
 /// kind 1: latching with probation, a new source address per packet (`probation.candidates`);
-/// kind 2: plain RTP, new SSRC per packet with a RID extension naming a registered rid (bound through the RID route).
+/// kind 2: plain RTP, new SSRC per packet with a RID extension naming a registered rid (bound through the RID route);
+/// kind 4: relay into an SRTP-protected leg with a new source SSRC per packet (bridge stream state + one SRTP protect context per SSRC);
+/// kind 3: 72 000 packets relayed through a rewrite bridge (`RewriteBridge.streams`, output sequence / timestamp continuation).
 /// Oracles: retained ≤ 16·bytes received + 64 KiB; CPU time of the flood must not grow faster than linearly:
 /// flood(4n) ≤ 8·flood(n) once flood(4n) ≥ 0.4 s (a per-packet scan of everything received so far is quadratic).
 pub fn run_rtpflood(run: &mut Run, kind: u8, count: u32) {
@@ -127,15 +152,17 @@ pub fn run_rtpflood(run: &mut Run, kind: u8, count: u32) {
     let r = super::catch_ack(move || {
         let mut out = (0u64, 0u64, [0f64; 2]);
         for (round, n) in [count / 4, count].into_iter().enumerate() {
-            let mut fix = Fix::new(if kind == 1 { 2 } else { 0 });
+            let mut fix = Fix::new(match kind { 1 => 2, 3 => 16, 4 => 16 + 64, _ => 0 });
             super::alloc_reset();
             let t0 = cpu_time();
             let mut bytes = 0u64;
             for k in 0..n {
                 let mut p = vec![0x80u8, 96, (k >> 8) as u8, k as u8, 0, 0, 0, 1];
-                let ssrc = if kind == 1 { 0x1000 } else { 0x4000_0000 + k };
+                // kind 3: one source stream relayed through the bridge for longer than the 16-bit sequence space; every 64th packet a new source SSRC
+                let ssrc = if kind == 1 { 0x1000 } else if kind == 3 { 0x5000_0000 + k / 64 * (k % 64 == 0) as u32 } else { 0x4000_0000 + k };
                 p.extend_from_slice(&ssrc.to_be_bytes());
                 if kind == 2 { p[0] = 0x90; p.extend_from_slice(&[0xBE, 0xDE, 0, 1, 0x31, b'h', b'i', 0]); }
+                if kind == 4 { p[1] = 98; }                      // catch-all rule: output SSRC = source SSRC + 7
                 p.push(0x55);
                 bytes += p.len() as u64;
                 let from: SocketAddr = if kind == 1 { SocketAddr::new(std::net::IpAddr::V4(std::net::Ipv4Addr::from(0x0A00_0000 + k)), 5000) } else { src(0) };
@@ -155,18 +182,18 @@ pub fn run_rtpflood(run: &mut Run, kind: u8, count: u32) {
     run.count_n(&format!("rtpflood:retained_per_input_byte_x100:{kind}"), retained * 100 / bytes_in.max(1));
     run.count_n(&format!("rtpflood:cpu_ms:{kind}"), (times[1] * 1000.0) as u64);
     if retained > 16 * bytes_in + 65536 {
-        run.fail(&format!("retain:RtpTransport::receive:{}", ["ssrc-bind-per-packet", "probation-per-source", "ssrc-bind-per-packet(rid)"][kind.min(2) as usize]), &case,
+        run.fail(&format!("retain:RtpTransport::receive:{}", ["ssrc-bind-per-packet", "probation-per-source", "ssrc-bind-per-packet(rid)", "bridge-stream-per-ssrc", "bridge-srtp-context-per-ssrc"][kind.min(4) as usize]), &case,
             &format!("{retained} bytes retained after {count} packets ({bytes_in} bytes received)"));
     }
     if times[1] >= 0.4 && times[1] > 8.0 * times[0].max(0.01) {
-        run.fail(&format!("slow:RtpTransport::receive:{}", ["ssrc-bind-scan", "probation-scan", "ssrc-bind-scan(rid)"][kind.min(2) as usize]), &case,
+        run.fail(&format!("slow:RtpTransport::receive:{}", ["ssrc-bind-scan", "probation-scan", "ssrc-bind-scan(rid)", "bridge", "bridge-srtp"][kind.min(4) as usize]), &case,
             &format!("{} packets took {:.2} s CPU, {} packets {:.2} s: super-linear in the number of packets received", count / 4, times[0], count, times[1]));
     }
     run.case("rtpflood", &format!("{kind} {count}"), "noncompared", true);
 }
 
 pub fn special(run: &mut Run, rng: &mut Rng, thorough: bool) {
-    let variants: &[u8] = if thorough { &[0, 1, 2, 3, 4, 6 + 4, 8 + 2, 8 + 4 + 1] } else { &[0, 1, 2, 8 + 4] };
+    let variants: &[u8] = if thorough { &[0, 1, 2, 3, 4, 6 + 4, 8 + 2, 8 + 4 + 1, 16, 16 + 32, 16 + 64, 16 + 1, 16 + 64 + 1] } else { &[0, 1, 2, 8 + 4, 16, 16 + 32 + 64] };
     for &v in variants {
         let mut fix = Fix::new(v);
         // every datagram of length 0 and 1; 2-byte datagrams on the classification boundaries
@@ -192,6 +219,9 @@ pub fn special(run: &mut Run, rng: &mut Rng, thorough: bool) {
     }
     let n = if thorough { 80_000 } else { 40_000 };
     for kind in 0..3u8 { run_rtpflood(run, kind, n); }
+    run_rtpflood(run, 4, 60_000);                          // relay into an SRTP leg, a new source SSRC per packet: long enough that the constant cap on protect contexts (1024 × ≈ 7 KB) passes the linear bound and per-SSRC growth does not
+    chain_special(run, rng, thorough);
+    run_rtpflood(run, 3, 72_000);                          // relay: the rewritten sequence number passes 0xFFFF (seeded 0xFFF8) and a full 16-bit cycle
 }
 
 pub fn replay_special(run: &mut Run, stream: &str, a: &[&str]) -> bool {
@@ -200,6 +230,126 @@ pub fn replay_special(run: &mut Run, stream: &str, a: &[&str]) -> bool {
         ("rtprecv", 3) => { let mut f = Fix::new(p(a[0]) as u8); run_rtprecv(run, &mut f, p(a[1]) as u8, &unhex(a[2]), true); true }
         ("rtprecv", 2) => { let mut f = Fix::new(p(a[0]) as u8); run_rtprecv(run, &mut f, p(a[1]) as u8, &[], true); true }
         ("rtpflood", 2) => { run_rtpflood(run, p(a[0]) as u8, p(a[1]) as u32); true }
+        ("rtpchain", _) => chain_replay(run, a),
         _ => false,
     }
+}
+
+// ---------------------------------------------------------------------------------------------------------------------
+/// oracle-only stream `rtpchain`: what happens to RTP / RTCP AFTER `RtpTransport::receive` handed it on — a live
+/// `PeerConnection` in plain-RTP mode (video transceiver with NACK and RTX negotiated, `enable_latching` on or off) whose
+/// receive task (`RtpReceiver::run_loop`: RTX unwrap, interceptor chain with the receiver NACK generator, `StatsCollector`
+/// sequence / cycle / jitter arithmetic, depacketizer) and RTCP loop (`process_rtcp`, sender NACK handler) run as in production.
+/// A case is a short packet HISTORY on a fresh connection (sequence numbers and timestamps on and across the 16- / 32-bit
+/// boundaries, gaps, reordering, duplicates, RTX with original sequence numbers, RTCP compounds). The tasks are the
+/// connection's own: a panic in any of them is seen by the process-wide panic counter.
+#[derive(Clone)]
+pub enum ChainPk { Rtp { rtx: bool, other_pt: bool, seq: u16, ts: u32, ssrc: u8, marker: bool, len: usize }, Rtcp(Vec<u8>) }
+fn chain_text(h: &[ChainPk]) -> String {
+    h.iter().map(|p| match p {
+        ChainPk::Rtp { rtx, other_pt, seq, ts, ssrc, marker, len } => format!("{}{seq}.{ts}.{ssrc}.{}.{len}", if *rtx { "x" } else if *other_pt { "a" } else { "v" }, *marker as u8),
+        ChainPk::Rtcp(b) => format!("c{}", hex(b)) }).collect::<Vec<_>>().join(" ")
+}
+fn chain_parse(a: &[&str]) -> Vec<ChainPk> {
+    a.iter().filter_map(|t| {
+        let (k, rest) = t.split_at(1);
+        if k == "c" { return Some(ChainPk::Rtcp(unhex(rest))); }
+        let f: Vec<&str> = rest.split('.').collect(); if f.len() != 5 { return None; }
+        Some(ChainPk::Rtp { rtx: k == "x", other_pt: k == "a", seq: f[0].parse().ok()?, ts: f[1].parse().ok()?, ssrc: f[2].parse().ok()?, marker: f[3] == "1", len: f[4].parse().ok()? })
+    }).collect()
+}
+pub fn run_rtpchain(run: &mut Run, latching: bool, hist: &[ChainPk], nt: bool) {
+    let h = hist.to_vec();
+    let input = format!("{} {}", latching as u8, chain_text(hist));
+    exec(run, "rtpchain", &input, "RtpReceiver::run_loop / rtcp loop", nt, None, move || {
+        let rt = tokio::runtime::Builder::new_current_thread().enable_all().build().unwrap();
+        rt.block_on(async {
+            use rustrtc::{PeerConnection, SdpType, SessionDescription};
+            let peer = tokio::net::UdpSocket::bind("127.0.0.1:0").await.expect("bind");
+            let port = peer.local_addr().unwrap().port();
+            let mut c = rustrtc::RtcConfiguration::default();
+            c.transport_mode = rustrtc::TransportMode::Rtp; c.bind_ip = Some("127.0.0.1".into()); c.disable_ipv6 = true; c.enable_latching = latching;
+            let pc = PeerConnection::new(c);
+            let _ = pc.add_transceiver(rustrtc::MediaKind::Video, rustrtc::TransceiverDirection::SendRecv);
+            let Ok(offer) = pc.create_offer().await else { pc.close(); return };
+            let text = offer.to_sdp_string();
+            let _ = pc.set_local_description(offer);
+            // payload types of the offer: first video codec and its rtx
+            let pt_of = |name: &str| text.lines().filter_map(|l| l.strip_prefix("a=rtpmap:")).find(|l| l.to_ascii_lowercase().contains(name)).and_then(|l| l.split(' ').next().and_then(|x| x.parse::<u8>().ok()));
+            let vpt = text.lines().find(|l| l.starts_with("m=video")).and_then(|l| l.split(' ').nth(3).and_then(|x| x.parse::<u8>().ok())).unwrap_or(96);
+            let xpt = pt_of("rtx/").unwrap_or(97);
+            let mut ans = String::new();
+            for line in text.lines() {
+                if line.starts_with("m=video ") { let mut p: Vec<&str> = line.split(' ').collect(); let ps = port.to_string(); p[1] = &ps; ans.push_str(&p.join(" ")); ans.push_str("\r\n"); }
+                else if line.starts_with("c=") { ans.push_str("c=IN IP4 127.0.0.1\r\n"); }
+                else if line.starts_with("a=candidate") || line.starts_with("a=ssrc") {}
+                else { ans.push_str(line); ans.push_str("\r\n"); }
+            }
+            ans.push_str("a=ssrc-group:FID 11 12\r\na=ssrc:11 cname:r\r\na=ssrc:12 cname:r\r\n");
+            let Ok(d) = SessionDescription::parse(SdpType::Answer, &ans) else { pc.close(); return };
+            if tokio::time::timeout(std::time::Duration::from_secs(5), pc.set_remote_description(d)).await.is_err() { panic!("set_remote_description(answer) did not return within 5 s"); }
+            let up = pc.wait_for_rtp_transport_ready(std::time::Duration::from_millis(500)).await.is_ok();
+            CHAIN_UP.with(|u| u.set(up));
+            if let Some(tr) = pc.verif_lc_rtp_transport() {
+                let conn = tr.ice_conn();
+                let from: SocketAddr = format!("127.0.0.1:{port}").parse().unwrap();
+                let mut mb = Vec::new();
+                for p in &h {
+                    let bytes = match p {
+                        ChainPk::Rtcp(b) => b.clone(),
+                        ChainPk::Rtp { rtx, other_pt, seq, ts, ssrc, marker, len } => {
+                            let pt = if *rtx { xpt } else if *other_pt { 0 } else { vpt };
+                            let ssrc32 = match ssrc { 0 => 11u32, 1 => 12, 2 => 0xFFFF_FFFF, _ => 0x2000 + *ssrc as u32 };
+                            let mut v = vec![0x80u8, pt | if *marker { 0x80 } else { 0 }]; v.extend_from_slice(&seq.to_be_bytes()); v.extend_from_slice(&ts.to_be_bytes()); v.extend_from_slice(&ssrc32.to_be_bytes());
+                            if *rtx { v.extend_from_slice(&((*ts & 0xFFFF) as u16).to_be_bytes()); }
+                            v.extend(std::iter::repeat(0x65).take(*len)); v }
+                    };
+                    conn.receive(Bytes::from(bytes), from, &mut mb).await;
+                    for _ in 0..4 { tokio::task::yield_now().await; }
+                }
+                tokio::time::sleep(std::time::Duration::from_millis(3)).await;
+            }
+            pc.close();
+            tokio::time::sleep(std::time::Duration::from_millis(2)).await;
+        });
+        "noncompared".into()
+    });
+    run.count(&format!("rtpchain:transport_up:{}", CHAIN_UP.with(|u| u.get())));
+}
+thread_local! { static CHAIN_UP: std::cell::Cell<bool> = const { std::cell::Cell::new(false) }; }
+
+fn gen_chain(rng: &mut Rng) -> Vec<ChainPk> {
+    let mut out = vec![];
+    let r16 = rng.next() as u16; let r32 = rng.next() as u32;
+    let mut seq = *rng.pick(&[65533u16, 65534, 65535, 0, 1, 32767, 32768, 100, r16]);
+    let mut ts = *rng.pick(&[0xFFFF_FF00u32, 0xFFFF_FFFF, 0, 0x7FFF_FFFF, 0x8000_0000, 90_000, r32]);
+    for _ in 0..rng.range(2, 12) {
+        match rng.below(12) {
+            0 => { let p = super::rtp::gen_rtcp_packet(rng); let b = super::catch_ack(move || rustrtc::rtp::marshal_rtcp_packets(&[p]).unwrap_or_default()).unwrap_or_default(); if !b.is_empty() { out.push(ChainPk::Rtcp(b)); } continue; }
+            1 => { // a NACK / PLI for our own sender, SSRCs on the boundaries
+                let nack = RtcpPacket::GenericNack(rustrtc::rtp::GenericNack { sender_ssrc: 11, media_ssrc: *rng.pick(&[0u32, 11, 0xFFFF_FFFF]), lost_packets: (0..rng.range(1, 20)).map(|i| (*rng.pick(&[65530u16, 0, 32760])).wrapping_add(i as u16 * rng.range(1, 3) as u16)).collect() });
+                let b = super::catch_ack(move || rustrtc::rtp::marshal_rtcp_packets(&[nack]).unwrap_or_default()).unwrap_or_default(); if !b.is_empty() { out.push(ChainPk::Rtcp(b)); } continue; }
+            2 => seq = seq.wrapping_add(rng.range(2, 4) as u16),                       // a small gap (NACK generated), possibly across the wrap
+            3 => seq = seq.wrapping_sub(rng.range(1, 3) as u16),                       // reordering / duplicate
+            4 => seq = seq.wrapping_add(*rng.pick(&[300u16, 0x7FFF, 0x8000, 0x8001, 0xFFFE])), // gap beyond every cap
+            5 => ts = ts.wrapping_add(*rng.pick(&[0x8000_0000u32, 0xFFFF_FFFF, 0x7FFF_FFFF])),
+            _ => {}
+        }
+        let kind = rng.below(10);
+        out.push(ChainPk::Rtp { rtx: kind == 0, other_pt: kind == 1, seq, ts, ssrc: *rng.pick(&[0u8, 0, 0, 0, 1, 2, 3]), marker: rng.chance(1, 4), len: *rng.pick(&[0usize, 1, 2, 20, 1200]) });
+        seq = seq.wrapping_add(1); ts = ts.wrapping_add(*rng.pick(&[0u32, 3000, 3000, 90_000]));
+    }
+    out
+}
+pub fn chain_special(run: &mut Run, rng: &mut Rng, thorough: bool) {
+    let v = |seq: u16, ts: u32| ChainPk::Rtp { rtx: false, other_pt: false, seq, ts, ssrc: 0, marker: false, len: 20 };
+    // one packet lost exactly at the 16-bit wrap; a timestamp wrap; an RTX packet whose original sequence number is the lost one
+    run_rtpchain(run, false, &[v(65534, 1000), v(65535, 4000), v(1, 10_000)], true);
+    run_rtpchain(run, true, &[v(65533, 0xFFFF_F000), v(65535, 0xFFFF_FF00), v(2, 0x100), ChainPk::Rtp { rtx: true, other_pt: false, seq: 7, ts: 0, ssrc: 1, marker: false, len: 20 }], true);
+    run_rtpchain(run, false, &[v(0, 0), v(0x8000, 0x8000_0000), v(0xFFFF, 0xFFFF_FFFF), v(0x7FFF, 1)], true);
+    for i in 0..(if thorough { 6_000 } else { 250 }) { let h = gen_chain(rng); run_rtpchain(run, i % 3 == 0, &h, true); }
+}
+pub fn chain_replay(run: &mut Run, a: &[&str]) -> bool {
+    if a.is_empty() { return false; }
+    run_rtpchain(run, a[0] == "1", &chain_parse(&a[1..]), true); true
 }
